@@ -215,7 +215,7 @@ func c19RunJ(line string) string {
 		return "bad-op"
 	}
 	kv := c19KV(hdr)
-	return vhWithTimeout(5000, func() string {
+	return vhWithTimeout(30000, func() string {
 		switch kv["w"] {
 		case "32":
 			return c19RunJust[uint32](kv, body)
